@@ -91,7 +91,10 @@ pub fn random_style(rng: &mut StdRng) -> Style {
     }
     if rng.gen_bool(0.5) {
         let base = *crate::util::pick(rng, BUILTIN_FORMATS);
-        s.num_fmt = match rng.gen_range(0..4) {
+        s.num_fmt = match rng.gen_range(0..6) {
+            // the same code in another letter case is a different code (e/E, am/pm, General)
+            4 => base.to_ascii_lowercase(),
+            5 => base.to_ascii_uppercase(),
             0 => base.to_string(),                 // a custom format equal to a built-in one
             1 => format!("{base} "),               // one character away
             2 => base.replacen('0', "00", 1),      // one character away
